@@ -19,6 +19,7 @@ NAMES = [
     "Foo", "Bar", "Smith", "Jones", "Thompson", "Cooke", "Holmes", "Olcott", "Chase", "Gilmer", "Bee", "Taney",
     "Deady", "United States", "State", "Bell Atlantic Corp.", "Twombly", "Nobelman", "Am. Sav. Bank", "K.F.", "Roe",
     "Wade", "Inc.", "Miles", "AT&T", "O'Brien", "Peña", "Lissner", "Shapiro", "Adarand", "Wilkins", "Zubrek",
+    "Nun\u0303ez", "M\u00fcller", "al-Kidd", "D'Amato", "\u0141o\u015b",
 ]
 STOPS = ["v.", "v", "In re", "Ex parte", "see", "See", "citing", "cert. denied", "aff'd", "aff'd", "aff’d,", "affirmed", "remanded",
          "granted", "dismissed", "See also", "But see"]
@@ -38,7 +39,10 @@ PUNCT = [".", ",", ";", ":", "(", ")", "[", "]", "”", "“", "'", '"', "—", 
 # section signs glued to words, re.I case equivalents, quotes, BOM
 HOSTILE = [" ", " ", "　", "٣", "４", "\x00", "\x1f", "((", "))", "[", "]]", "9999999999999999999999",
            "§x", "x§", "ſ", "İ", "ı", "K", " ", "é", "ü", "‘", "’", "﻿", "\x0c", "\x85", "\r\n"]
-MULTIBYTE = ["“", "”", "‘", "’", "—", "–", "é", "ü", "ñ", "§", "¶", "…", "€", "✓", "𝒜"]
+MULTIBYTE = ["“", "”", "‘", "’", "—", "–", "é", "ü", "ñ", "§", "¶", "…", "€", "✓", "𝒜",
+             # not in Unicode normal form C: letter + combining mark, and singletons that NFC replaces
+             "re\u0301sume\u0301", "n\u0303", "\u212b", "\u2126", "\ufb01"]
+NOT_NFC = ["re\u0301sume\u0301", "a\u0308", "\u212b", "\u2126", "e\u0301"]
 
 WS_VARIANTS = ["\n", "\t", "  ", " (", "(( ", " [", "\n\n", ", ", "\r\n", ") "]
 
@@ -76,7 +80,7 @@ def pin(draw):
     if k <= 2:
         return ""
     if k == 3:
-        return ", " + n
+        return draw(st.sampled_from([", ", ", ", ", ", " , ", ",", ",  "])) + n
     if k == 4:
         return ", " + n + "-" + draw(_num)
     if k == 5:
@@ -249,6 +253,10 @@ def fragment(draw, hostile=True, multibyte=False):
         if j == 2:
             return f"{draw(_name)}, {ex}"
         return ex
+    if k < 81:
+        a, b = draw(_name), draw(_name)
+        fill = " ".join(draw(st.lists(st.sampled_from(WORDS[:12] + NOT_NFC + ["\u201cquoted\u201d", "\u00a7 5"]), min_size=0, max_size=6)))
+        return f"{a} v. {b}, {draw(full())}. {fill} {draw(st.sampled_from([a, b]))} at {draw(_num)}"
     if k < 84:
         return draw(st.sampled_from(STOPS))
     if k < 94 or not (hostile or multibyte):
@@ -282,8 +290,21 @@ def document(draw, hostile=True, multibyte=False, max_frags=8, mutate=True):
         alphabet = PUNCT + (HOSTILE if hostile else []) + (MULTIBYTE if multibyte else [])
         for _ in range(draw(st.integers(1, 3))):
             i = draw(st.integers(0, len(s) - 1))
-            op = draw(st.integers(0, 12))
-            if op < 3:
+            op = draw(st.integers(0, 15))
+            if op > 12:
+                # spacing noise next to punctuation (OCR, justified type): a blank before / after / missing after one of
+                # the punctuation marks that structure a citation
+                marks = [j for j, ch in enumerate(s) if ch in ",();.:[]"]
+                if marks:
+                    j = marks[draw(st.integers(0, len(marks) - 1))]
+                    how = draw(st.integers(0, 2))
+                    if how == 0:
+                        s = s[:j] + " " + s[j:]
+                    elif how == 1:
+                        s = s[:j + 1] + " " + s[j + 1:]
+                    elif s[j + 1:j + 2] == " ":
+                        s = s[:j + 1] + s[j + 2:]
+            elif op < 3:
                 s = s[:i] + s[i + 1:]
             elif op < 7:
                 s = s[:i] + draw(st.sampled_from(alphabet)) + s[i:]
